@@ -9,6 +9,7 @@ import (
 	"fmt"
 	"hash"
 	"io"
+	"math"
 	"net"
 	"strconv"
 	"strings"
@@ -368,9 +369,15 @@ func readMessage(r io.Reader, header *wire.MessageHeader, msg wire.Message) erro
 		rc = r
 	}
 
-	// Read payload.
-	payload := make([]byte, header.Length)
-	if _, err := io.ReadFull(rc, payload); err != nil {
+	if header.Length > math.MaxInt64 {
+		return errors.Wrap(ErrMessageTooLarge, fmt.Sprintf("%s: %d b", header.CommandString(),
+			header.Length))
+	}
+
+	// Read payload. Let the buffer grow as data is received, so memory is only allocated for data
+	// the node actually sent and not for the length it declared.
+	payload := &bytes.Buffer{}
+	if _, err := io.CopyN(payload, rc, int64(header.Length)); err != nil {
 		return errors.Wrap(err, "read")
 	}
 
@@ -385,7 +392,7 @@ func readMessage(r io.Reader, header *wire.MessageHeader, msg wire.Message) erro
 	}
 
 	// Unmarshal message
-	if err := msg.BtcDecode(bytes.NewBuffer(payload), wire.ProtocolVersion); err != nil {
+	if err := msg.BtcDecode(payload, wire.ProtocolVersion); err != nil {
 		return errors.Wrap(err, "decode")
 	}
 
